@@ -100,8 +100,8 @@ func isFlagSet(fs *flag.FlagSet, name string) bool {
 func contractsFor(w *World, prop string) []*Contract {
 	var out []*Contract
 	for _, c := range w.Contracts {
-		if c.Extern {
-			continue
+		if c.Extern || c.has("trusted") || (c.has("inline") && len(c.of("ensures", -1)) == 0) {
+			continue // assumed contracts and inline-only loop annotations are not verified on their own
 		}
 		for _, p := range c.Props {
 			if p == prop || prop == "all" {
